@@ -97,6 +97,21 @@ def main(argv):
                 if missed:
                     selfcheck_failed = True
                     print(r.stdout[-1500:])
+            # the independently written behaviour-preserving refactorings of this property's files (benignseeds/, all twenty
+            # quick checks on each): one that was quiet and is not any more is a regression of the machinery
+            if glob.glob(os.path.join(cdb.VERIF, "benignseeds", pid + "-*", "patch.diff")):
+                r = subprocess.run([sys.executable, os.path.join(cdb.VERIF, "tools", "benignseeds.py"), pid, "-j", "1"], capture_output=True, text=True,
+                                   env=dict(os.environ, VERIF_NO_SELFTEST="1"))
+                m = re.search(r"(\d+) refactorings run, (\d+) quiet, (\d+) with open false alarms, (\d+) regressed", r.stdout)
+                ran, quiet, opened, regressed = (int(m.group(i_)) for i_ in (1, 2, 3, 4)) if m else (0, 0, 0, 1)
+                rep.notes.append("independently written refactorings of this property's files (benignseeds/): %d run against all twenty quick checks, %d quiet, "
+                                 "%d with open false alarms (DESIGN 9.5a), %d regressed" % (ran, quiet, opened, regressed))
+                rep.stats["selfcheck_benignseeds_run"] = ran
+                rep.stats["selfcheck_benignseeds_quiet"] = quiet
+                rep.stats["selfcheck_benignseeds_open"] = opened
+                if regressed:
+                    selfcheck_failed = True
+                    print(r.stdout[-1500:])
         rc = rep.finish()
         if selfcheck_failed and rc == 0:
             print("ANALYSIS-BROKEN property=%s: checker self-validation failed (a recorded mutant was missed or a benign edit alarmed)" % pid)
